@@ -5,6 +5,16 @@ HERE = os.path.dirname(os.path.dirname(os.path.abspath(__file__)))
 ALL = ['C%02d' % i for i in range(1, 21)]
 
 CLAIMED = {
+ 'C18': dict(
+    level='model_checking',
+    text='Input.tla holds the field scanner (character automaton), the accept/reject/either classification per variable type and the '
+         'prompt/redo protocol machine; TLC explores all response histories over per-scenario line pools with the model invariants '
+         '(nothing assigned before acceptance, accepted only if well-formed and in range, one prompt per round) and prints each '
+         'behaviour; behaviours are replayed as INPUT statements with scalar/element/field targets followed by GOSUB/RETURN, a SUB '
+         'call and a fall-off end; every recorded dialogue (texts, lines, values pushed, stack effect) is validated by Trace_Input.tla.',
+    note='Trusted: TLC, the tick observer that reads the operand stack around `io terminal,input`, numpy/python repr to identify a float by its shortest decimal.',
+    technique='TLA+ protocol machine + scanner automaton, TLC exhaustive histories, behaviour replay, trace validation',
+    design='6 C18'),
  'C17': dict(
     level='model_checking',
     text='Print.tla is the PRINT protocol machine; TLC checks its invariants over all item sequences up to the bound and '
